@@ -56,7 +56,7 @@ func (c11) Gen(r *rand.Rand, tier string, idx int) *core.Plan {
 	n := 1 + r.IntN(3)
 	for i := 0; i < n; i++ {
 		meta := int64(core.Pick(r, 0, 1, 1, 1, 2, 3, 4, 5, 6, 7))
-		p.Ops = append(p.Ops, core.Op{Kind: "sign", I: []int64{int64(core.Pick(r, 0, 0, 1, 2, 3, 4)), meta, int64(r.IntN(2)), int64(r.IntN(2)), int64(r.IntN(100))}})
+		p.Ops = append(p.Ops, core.Op{Kind: "sign", I: []int64{int64(core.Pick(r, 0, 0, 1, 2, 3, 4, 5)), meta, int64(r.IntN(2)), int64(r.IntN(2)), int64(r.IntN(100))}})
 		if r.IntN(6) == 0 && p.World["store"] >= 2 {
 			p.Ops = append(p.Ops, core.Op{Kind: "reopen"})
 		}
@@ -311,6 +311,8 @@ func (l c11) Exec(env *core.Env) *core.Result {
 				ref = "registry.example/repo@" + dig
 			case 4:
 				ref = "registry.example/repo@" + digest.FromString("another artifact").String()
+			case 5: // a bare digest that is not the artifact's
+				ref = digest.FromString("another artifact").String()
 			}
 			var meta map[string]string
 			collide, reserved := false, false
